@@ -31,11 +31,8 @@ def main(argv=None):
     chk = oblig.Check(pid, args.tier, seed, level=getattr(mod, "LEVEL", "proof"))
     try:
         mod.run(chk)
-    except paths.OutOfReach as e:
-        chk.errors.append(f"verified code left the supported subset: {e}")
-        traceback.print_exc()
     except Exception as e:  # noqa: BLE001
-        chk.errors.append(f"checker crashed: {type(e).__name__}: {e}")
+        chk.errors.append(f"checker crashed outside a section: {type(e).__name__}: {e}")
         traceback.print_exc()
     rc = chk.finish(getattr(mod, "EXPLANATION", (mod.__doc__ or "").strip()))
     return rc
